@@ -351,6 +351,7 @@ func main() {
 		}
 		if r.Kind == "histories" {
 			sm["depth_completed"] = r.DepthCompleted
+			sm["saturated_fixpoint"] = r.Saturated
 		}
 		if len(scen) < 400 {
 			scen = append(scen, sm)
